@@ -190,14 +190,14 @@ def length_rules(rep, ctx, mod, cg, prefix=""):
 
         def per_level(o, sf0=None):
             """{level: constant} for a value that is a constant or a phi of constants selected by header_level"""
-            got = {}
+            seen = {}
             for s_, sf in Fl0.sources(o):
-                for k in (0, 1):
-                    if M0.find_fact(("eq", hdr_field("header_level", HP), k), set(sf) | set(sf0 or ()))[0] is not None:
-                        got[k] = const_val(s_) if is_const(s_) else None
-                if is_const(s_) and not got:
-                    got = {0: const_val(s_), 1: const_val(s_)}
-            return got
+                val = const_val(s_) if is_const(s_) else None
+                lv = [k for k in (0, 1) if M0.find_fact(("eq", hdr_field("header_level", HP), k), set(sf) | set(sf0 or ()))[0] is not None]
+                for k in (lv or (0, 1)):         # a source not tied to one level can be the value at either
+                    seen.setdefault(k, set()).add(val)
+            # the value at a level is known only if every source that can reach it under that level is the same constant
+            return {k: (next(iter(v)) if len(v) == 1 else None) for k, v in seen.items()}
 
         def symf(o):
             if M0.match(raw_at(21), o, {}) is not None:
